@@ -280,6 +280,13 @@ namespace
             case S_RESIZE:
             {
                 size_t n = (size_t)mod(arg(o, 2), 2 * N + 2);
+                if (mod(arg(o, 3), 20) == 13)
+                {
+                    // a request far beyond any capacity: size() - 1 of an empty container, a count with more than 31 / 32 bits
+                    static const size_t huge[5] = {(size_t)-1, ((size_t)1 << 32) + 1, ((size_t)1 << 31) + 5, (size_t)-1 / 2 + 1, ((size_t)1 << 32)};
+                    n = huge[mod(arg(o, 2), 5)];
+                    probe("resize_to_a_count_beyond_32_bits");
+                }
                 if (n > N) { overflow_offered = true; probe("resize_beyond_N"); fault("input_beyond_capacity"); }
                 long h0 = Watch<E>::hits(w);
                 size_t old = mx.size();
